@@ -176,6 +176,23 @@ PROPS = {
         assumptions=["operators are cautious: every node used is touched with getData(n, WRITE) (and scans iterate edges) before the commit point",
                      "removed nodes are never re-added; parallel edges of one pair carry equal data; where the implementation may legally pick either of several parallel edges the case is marked ambiguous and only structure is compared"],
     ),
+    "C12": dict(
+        variants={"native": ["galois_shmem", "graph-convert"]},
+        units=[dict(type="hyp", harness="py:c12b", quick=4000, thorough=60000)],
+        engine="hypothesis over subprocesses",
+        technique="property-based testing: Hypothesis-generated text inputs (unambiguous grammar: blanks, CR/LF, comments, blank lines, missing weights, extra columns, id gaps, large ids, duplicates, self edges, no trailing newline) and binary .gr inputs written by an independent codec; graph-convert run as a subprocess; round-trip / reference-meaning oracle per conversion",
+        rule=("cases = (conversion mode, edge type, up to 30 lines, CR/LF, trailing newline, inverse conversion, transforming "
+              "conversion + parameter); non-trivial = >=3 edges AND (>=1 skipped line, or an odd edge count with edge data); distinct "
+              "= sha1 of the case"),
+        level_text=("Text->gr (edgelist2gr for all 7 edge types, csv2gr, dimacs2gr, mtx2gr, edgelist2binary): node count = max id+1, edge "
+                    "multiset with weights, per-node input order. gr->text (7 inverse conversions): parsed output == graph. Transforms "
+                    "(transpose, symmetrise, clean, sort by dst/weight/degree, random weights in range, big-endian, ring/line/tree "
+                    "overlays): equal to the Python reference of the documented meaning. Exploration only."),
+        level_note="trusted: the Python .gr codec (py/common.py) written from the documented layout; conversions whose help text does not fix the result (lowdegree, rand, part*) are only run for success",
+        assumptions=["text inputs follow the unambiguous grammar of DESIGN 4/C12 (no single-number lines, no negative ids)",
+                     "conversions marked 'undefined for void graphs' are not given void graphs",
+                     "the library-level part (a) (FileGraph writer/readers) is unit c12a when present"],
+    ),
     "C13": dict(
         variants={"native": ["galois_shmem"]},
         units=[dict(type="rc", harness="c13", quick=400000, thorough=10000000, enumerate=True, workers=8)],
